@@ -59,7 +59,7 @@ package bytom
 //@ func verifyFromTx
 //@   property C23
 //@   mode abstract
-//@   requires native != nil && sideChain != nil
+//@   requires native != nil
 //@   modifies nothing
 //@   ghost var confirmed bool = false
 //@   ghost var proven bool = false
